@@ -322,3 +322,64 @@ Proof.
   induction a as [|x a IH]; intros [|y b] H; simpl in H; try reflexivity; try discriminate.
   apply andb_true_iff in H. destruct H as [H1 H2]. apply Z.eqb_eq in H1. subst. f_equal. apply IH. exact H2.
 Qed.
+
+(** * labels: exactness.  [l_union] keeps the labels distinct and computes the set union, so the
+    length of the list is the number of distinct surfaces named so far *)
+Lemma existsb_eqb_In (x : nat) (l : list nat) : existsb (Nat.eqb x) l = true <-> In x l.
+Proof.
+  rewrite existsb_exists. split.
+  - intros [y [I E]]. apply Nat.eqb_eq in E. subst. exact I.
+  - intro I. exists x. split; [exact I | apply Nat.eqb_refl].
+Qed.
+
+Lemma l_union_In new : forall have x, In x (l_union have new) <-> In x have \/ In x new.
+Proof.
+  induction new as [|y r IH]; intros have x; simpl.
+  - tauto.
+  - destruct (existsb (Nat.eqb y) have) eqn:E.
+    + rewrite IH. apply existsb_eqb_In in E. split; [tauto|]. intros [H|[H|H]]; [tauto | subst; tauto | tauto].
+    + rewrite IH. rewrite in_app_iff. simpl. tauto.
+Qed.
+
+Lemma NoDup_snoc (y : nat) (l : list nat) : NoDup l -> ~ In y l -> NoDup (l ++ [y]).
+Proof.
+  induction l as [|x l IH]; intros N I; simpl.
+  - constructor; [intros [] | constructor].
+  - inversion N as [|x' l' Hx Hl]; subst. constructor.
+    + rewrite in_app_iff. simpl. intros [H|[H|[]]]; [contradiction | subst; apply I; left; reflexivity].
+    + apply IH; [exact Hl | intro H; apply I; right; exact H].
+Qed.
+
+Lemma l_union_NoDup new : forall have, NoDup have -> NoDup (l_union have new).
+Proof.
+  induction new as [|y r IH]; intros have N; simpl; [exact N|].
+  destruct (existsb (Nat.eqb y) have) eqn:E; [apply IH; exact N|].
+  apply IH. apply NoDup_snoc; [exact N|].
+  intro I. apply existsb_eqb_In in I. congruence.
+Qed.
+
+Lemma l_run_exact have h :
+  forall k b, nth_error (l_run have h) k = Some b ->
+    b = l_ok (fold_left l_union (firstn (S k) h) have).
+Proof.
+  revert have. induction h as [|new r IH]; intros have k b H.
+  - destruct k; discriminate.
+  - destruct k as [|k]; simpl in H.
+    + inversion H. reflexivity.
+    + apply (IH (l_union have new) k b H).
+Qed.
+
+Lemma fold_l_union_NoDup h : forall have, NoDup have -> NoDup (fold_left l_union h have).
+Proof.
+  induction h as [|new r IH]; intros have N; simpl; [exact N|]. apply IH. apply l_union_NoDup. exact N.
+Qed.
+
+Lemma fold_l_union_In h : forall have x,
+  In x (fold_left l_union h have) <-> In x have \/ exists new, In new h /\ In x new.
+Proof.
+  induction h as [|new r IH]; intros have x; simpl.
+  - split; [tauto|]. intros [H|[n [[] _]]]. exact H.
+  - rewrite IH. rewrite l_union_In. split.
+    + intros [[H|H]|[n [I J]]]; [tauto | right; exists new; tauto | right; exists n; tauto].
+    + intros [H|[n [[E|I] J]]]; [tauto | subst; tauto | right; exists n; tauto].
+Qed.
